@@ -254,10 +254,22 @@ fn cli_run(f: &Fault, mode: Mode, m: &Mutated) -> Option<(String, String)> {
     let bytes: Vec<u8> = m.packets.iter().flat_map(|(_, p)| p.packet.bytes()).collect();
     let scratch = Scratch::new("c02");
     let input = scratch.file("in.raw", &bytes);
-    let mut args: Vec<String> = vec![input.display().to_string()];
+    // rotating: source (file / stdin) and an input filter on the link that carries the fault
+    let variant = (fp_model::util::fnv(f.name.as_bytes()) as usize + mode as usize) % 4;
+    let stdin = variant % 2 == 1;
+    let mut args: Vec<String> = if stdin { vec![] } else { vec![input.display().to_string()] };
+    if variant >= 2 {
+        if let Some((_, p)) = m.packets.iter().rev().find(|(off, _)| *off <= m.site_offset) {
+            args.extend(["--filter-link".to_string(), p.packet.rdh.link_id.to_string()]);
+        }
+    }
     args.extend(mode.cli_args().iter().map(|s| s.to_string()));
     args.extend(["-E".to_string(), "9".to_string()]);
-    let res = Run::new(&args).cwd(&scratch.path).run();
+    let mut run = Run::new(&args).cwd(&scratch.path);
+    if stdin {
+        run = run.stdin(&bytes);
+    }
+    let res = run.run();
     if res.crashed() {
         return Some((format!("cli-crash:{}", f.name), format!("signal {:?} timed out {}: {}", res.signal, res.timed_out, res.stderr_str().chars().take(300).collect::<String>())));
     }
